@@ -37,7 +37,7 @@ man = dict(
                   serves_properties=[c['property_id'] for c in checks],
                   kind_free_text='Lean 4 theorems about a hand-written executable model; model tied to /repo on every run by a Rust differential harness (line protocol to a compiled Lean driver) and a constant extractor; implementation-side oracles search for failing inputs')],
     checks=checks,
-    notes='See DESIGN.md. Every check: extractor -> lake build of the property theorems -> axiom/source audit -> statement snapshot -> harness rebuilt from /repo working tree -> correspondence -> oracle.',
+    notes='See DESIGN.md (status paragraph at the top, build log in section 14). Every check: extractor + translator (Gen/*.lean regenerated from /repo) -> lake build of the property theorems -> axiom/source audit -> statement snapshot -> harness rebuilt from /repo working tree -> correspondence -> oracle.',
     not_applicable=[dict(property_id=p, reason=PENDING.get(p, 'check not built yet in this revision of /verif (planned, see DESIGN.md section 9); not claimed until its theorems and correspondence exist')) for p in ALL if p not in [c['property_id'] for c in checks]],
 )
 json.dump(man, open(os.path.join(ROOT, 'MANIFEST.json'), 'w'), indent=1)
